@@ -197,7 +197,7 @@ def prune_cache(max_bytes=3 * 1024 ** 3):
 
 def regenerate_models():
     """the .v files that are translated from /repo's current source (rewritten only when their content changes)"""
-    for script in ("translate_params.py", "translate_columns.py", "translate_facts.py", "translate_iteration.py", "translate_kernel.py"):
+    for script in ("translate_params.py", "translate_columns.py", "translate_facts.py", "translate_iteration.py", "translate_kernel.py", "translate_cellcycle.py"):
         sp = os.path.join(HARNESS, script)
         if os.path.exists(sp):
             run([sys.executable, sp, REPO])
@@ -440,6 +440,7 @@ class Check:
         self.pid = pid; self.tier = tier; self.seed = seed
         self.t0 = time.time()
         self.violations = []       # (replay_path, no_input_found)
+        self.pending = []          # broken obligations / correspondences held back until the search for a failing input is over
         self.known_hit = []
         self.cov = dict(evaluations=0, distinct_nontrivial=0, rule="", samples=[],
                         obligations=0, discharged=0, checker_cmd="", trusted_base=[],
@@ -508,11 +509,19 @@ class Check:
                 self.known_hit.append(key)
                 print("KNOWN-FINDING: property=%s %s" % (self.pid, k.get("what", what)), flush=True)
             return
+        if oracle is None and not getattr(self, "_flushing", False):
+            # a broken obligation or correspondence: held back until the search for a failing input is over; it is printed with
+            # "no-failing-input-found" only if that search found none (otherwise the failing input is the report, and the
+            # broken obligation is recorded inside its replay file)
+            self.pending.append((case, unchecked, key, what))
+            return
         n = len(self.violations)
         path = os.path.join(self.replay_dir, "%s_%s_%d_%d.json" % (self.pid, self.tier, self.seed, n))
         rep = dict(property=self.pid, tier=self.tier, seed=self.seed, case=case, what=what)
         if oracle:
             rep["oracle"] = oracle
+            if self.pending:
+                rep["also_no_longer_checked"] = [dict(unchecked=u, what=w) for _, u, _, w in self.pending]
         if unchecked:
             rep["unchecked"] = unchecked
         with open(path, "w") as f:
@@ -523,7 +532,19 @@ class Check:
             if what:
                 log("  -> " + what)
 
+    def flush_pending(self):
+        if self.pending and not any(not noinput for _, noinput in self.violations):
+            self._flushing = True
+            for case, unchecked, key, what in self.pending:
+                self.report(case, unchecked=unchecked, key=key, what=what)
+            self._flushing = False
+        elif self.pending and self.violations:
+            for case, unchecked, key, what in self.pending:
+                log("  (also no longer checked: %s — %s)" % (unchecked, what[:160]))
+        self.pending = []
+
     def finish(self, level="proof"):
+        self.flush_pending()
         ev = dict(property_id=self.pid, tier=self.tier, seed=self.seed, level=level,
                   coverage=self.cov, assumptions=self.assumptions, wall_s=round(time.time() - self.t0, 2),
                   violations=len(self.violations))
